@@ -1,12 +1,15 @@
 #!/bin/bash
-# trymut.sh <prop> <patch file>...   apply each patch to /repo, run ./check <prop>, restore
+# trymut.sh <prop> <patch file>...   apply each patch to a scratch copy of /repo (never /repo itself),
+# run ./check <prop> against the copy, remove the copy
 prop=$1; shift
 for p in "$@"; do p=$(readlink -f "$p")
-  if git -C /repo apply "$p" 2>/dev/null; then
-    out=$(cd /verif && ./check $prop 2>&1); rc=$?
-    git -C /repo checkout -- .
+  tmp=$(mktemp -d /tmp/trymut_XXXXXX)
+  rsync -a --exclude target --exclude .git /repo/ $tmp/repo/
+  if (cd $tmp/repo && patch -p1 -s -i "$p" >/dev/null 2>&1); then
+    out=$(cd /verif && MPCHECK_REPO=$tmp/repo ./check $prop 2>&1); rc=$?
     echo "== $(basename $(dirname $p))/$(basename $p) -> exit $rc: $(echo "$out" | grep -E '^  violated' | sed 's/^  violated //' | tr '\n' ' ' | cut -c1-300)"
   else
     echo "== $p does not apply"
   fi
+  rm -rf $tmp
 done
